@@ -905,6 +905,49 @@ fn gen_packets(r: &mut Rng, n: usize) -> Vec<usize> {
 	}
 	v
 }
+/// sprinkles EMPTY packets (the `Decoder` contract allows them) into a packet script: at the very start, at the end of
+/// the stream, in runs of 1-3 at random places, and around the packets that hold the given frames of interest (the
+/// start position, the loop start and the frame before the loop end: where seeks land and where the loop wraps)
+fn sprinkle_empties(r: &mut Rng, packets: &[usize], interest: &[usize]) -> Vec<usize> {
+	let run = |r: &mut Rng| vec![0usize; r.range(1, 3) as usize];
+	// packet numbers before which a run of empties goes
+	let mut at: Vec<usize> = vec![];
+	if r.chance(1, 2) {
+		at.push(0);
+	}
+	if r.chance(1, 2) {
+		at.push(packets.len());
+	}
+	for _ in 0..r.below(4) {
+		at.push(r.below(packets.len() as u64 + 1) as usize);
+	}
+	for &f in interest {
+		// the packet holding frame f, and the one after it
+		let mut acc = 0;
+		for (k, p) in packets.iter().enumerate() {
+			if f < acc + p {
+				if r.chance(2, 3) {
+					at.push(k);
+				}
+				if r.chance(1, 2) {
+					at.push(k + 1);
+				}
+				break;
+			}
+			acc += p;
+		}
+	}
+	let mut out = vec![];
+	for k in 0..=packets.len() {
+		if at.contains(&k) {
+			out.extend(run(r));
+		}
+		if k < packets.len() {
+			out.push(packets[k]);
+		}
+	}
+	out
+}
 fn gen_rate_value(r: &mut Rng, big: bool) -> f64 {
 	match r.below(12) {
 		0 => 0.0,
@@ -1065,7 +1108,25 @@ fn gen_scenario(r: &mut Rng, model: bool, lead: Lead) -> Scenario {
 	};
 	let st = if !paced_exact && r.chance(1, 5) { gen_start(r, frame_ns) } else { Start::Imm };
 	let fade_in = if r.chance(1, 6) { Some(gen_tw(r, false, frame_ns)) } else { None };
-	let packets = gen_packets(r, n);
+	let mut packets = gen_packets(r, n);
+	if r.chance(1, 2) {
+		// empty packets, in particular where the first seek lands and where the loop wraps
+		let off = slice.map(|(a, _)| a).unwrap_or(0);
+		let frame_of = |p: Pos| match p {
+			Pos::Smp(k) => k,
+			Pos::Sec(x) => (x * sr as f64).round().max(0.0) as usize,
+		};
+		let mut interest = vec![off + frame_of(start)];
+		if let Some((ls, le)) = lp {
+			interest.push(off + frame_of(ls));
+			let e = match le {
+				End::End => nf,
+				End::Cus(p) => frame_of(p),
+			};
+			interest.push(off + e.saturating_sub(1));
+		}
+		packets = sprinkle_empties(r, &packets, &interest);
+	}
 	let gran = *r.pick(&[1usize, 1, 2, 3, 7, 1000]);
 	let mut sc = Scenario { sr, dt, frames, slice, start, lp, st, vol: gen_db(r), rate, pan: gen_pan(r), fade_in, packets, gran, lead, cbs, outside: false };
 	// keep a callback's consumption well inside the ring
@@ -1303,6 +1364,25 @@ fn witnesses(s: &mut Session, ids: &Ids) {
 		// rate -0.0, then set_playback_rate(1.0)
 		("negative_zero_rate", base(-0.0, None, 2, Lead::Free, vec![set_rate_one, plain(3)])),
 	];
+	// inside the guard: empty packets at the start, in runs, where the first seek lands, at the loop wrap, at the end
+	for (k, (packets, gran, start, lp)) in [
+		(vec![0usize, 0, 1, 0, 2, 0, 0, 0, 3, 0, 2, 0], 2usize, 1usize, Some((2usize, 6usize))),
+		(vec![0, 3, 0, 0, 1, 0, 4, 0, 0], 3, 4, Some((0, 8))),
+		(vec![2, 0, 0, 0, 2, 0, 2, 0, 2, 0, 0], 1, 0, None),
+		(vec![0, 0, 0, 8], 7, 3, Some((3, 5))),
+	]
+	.into_iter()
+	.enumerate()
+	{
+		for lead in [Lead::Free, Lead::Tight] {
+			let mut sc = base(1.5, None, start, lead, vec![plain(4), plain(3), plain(5), plain(4)]);
+			sc.packets = packets.clone();
+			sc.gran = gran;
+			sc.lp = lp.map(|(a, b)| (Pos::Smp(a), End::Cus(Pos::Smp(b))));
+			sc.outside = false;
+			submit(s, ids, &format!("empty_packets_{k}"), &sc, true);
+		}
+	}
 	let known = known_classes();
 	for (name, sc) in list {
 		let tr = submit(s, ids, &format!("witness_{name}"), &sc, true);
